@@ -64,6 +64,13 @@ inductive MErr where
   | fuel         -- model artefact: never produced when fuel = length + 1
   deriving DecidableEq, Repr
 
+instance {ε α : Type} [DecidableEq ε] [DecidableEq α] : DecidableEq (Except ε α) := fun a b =>
+  match a, b with
+  | .ok x, .ok y => if h : x = y then isTrue (by rw [h]) else isFalse (by intro hh; cases hh; exact h rfl)
+  | .error x, .error y => if h : x = y then isTrue (by rw [h]) else isFalse (by intro hh; cases hh; exact h rfl)
+  | .ok _, .error _ => isFalse (by intro hh; cases hh)
+  | .error _, .ok _ => isFalse (by intro hh; cases hh)
+
 def cStar : Nat := 42      -- '*'
 def cQuest : Nat := 63     -- '?'
 def cLBr : Nat := 91       -- '['
